@@ -142,6 +142,16 @@ def build_jobs(ctx):
                  if (i < j if und else i != j) and rng.random() < p]
         mode = modes[k % 4]
         jobs.append(retrieve_job(c03.code_matrix(rng, n, edges, und, mode), mode, "random"))
+    # ---- tie-rich 'log' inputs: weights {1/2,1/4} (no zero lengths) on 5..7 nodes, where minimum
+    #      paths of different edge counts tie exactly and the float sums of k*ln2 differ in the last bit
+    for k in range(500 if q else 3000):
+        n = rng.randint(5, 7)
+        und = k % 2 == 0
+        edges = [(i, j) for i in range(n) for j in range(n)
+                 if (i < j if und else i != j) and rng.random() < 0.45]
+        K = c03.code_matrix(rng, n, edges, und, "len")          # codes 1..3
+        K = [[min(v, 2) for v in row] for row in K]             # -> k in {1,2}
+        jobs.append(retrieve_job(K, "log", "log-ties"))
     # ---- navigation_wu: enumerated graphs x nodal distances x finite max_hops
     for kind, n, cap, reps in [("und", 4, None, 4 if q else 40), ("dir", 3, None, 3 if q else 27),
                                ("dir", 4, 150 if q else 2000, 1), ("und", 5, 100 if q else None, 1)]:
